@@ -111,6 +111,12 @@ pub fn games(thorough: bool) -> Vec<Game> {
         // G9: every special move kind: castling both sides and colours, promotions and
         // capture-promotions that take a rook on its home square (castling rights lost by capture)
         g("G9 castling + promotions capturing home rooks", "r3k2r/1P4P1/8/8/8/8/1p4p1/R3K2R w KQkq - 0 1", &["b7a8q", "g7h8n", "b7b8r", "e1g1", "e1c1", "e8g8", "e8c8", "b2a1q", "g2h1n", "e8d7", "e1d2"], d(5, 6), false, false, true),
+        // G10: all four castling rights lost step by step while the same squares recur: the
+        // positions look alike and differ only in rights
+        g("G10 kings and rooks shuffle, rights KQkq -> -", "r3k2r/8/8/8/8/8/8/R3K2R w KQkq - 0 1", &["e1e2", "e2e1", "e8e7", "e7e8", "a1b1", "b1a1"], d(10, 12), false, false, false),
+        // G11: two simultaneous pins; illegal moves of pinned men pushed in every notation
+        g("G11 double pin, pinned men pushed as SAN", "3r2k1/p7/8/8/3R4/8/P7/3K1N1r w - - 0 40", &["d4b4", "f1e3", "d4d5", "a2a3", "a7a6", "d1c2", "g8g7"], d(4, 5), true, false, false),
+        g("G11b diagonal + diagonal pin", "4k3/8/8/b7/7b/8/3N1N2/4K3 w - - 0 1", &["d2b3", "f2e4", "d2e4", "e1f1", "e1d1", "e8e7", "a5d2"], d(4, 5), true, false, false),
         // G6: K v K (insufficient material, with repetitions)
         g("G6 K v K", "4k3/8/8/8/8/8/8/4K3 w - - 0 1", &["e1d1", "d1e1", "e8d8", "d8e8", "e1e2", "e2e1"], d(9, 10), false, false, true),
         // G7: lines into mate and stalemate
@@ -238,7 +244,7 @@ fn apply_in_place(ctx: &mut Ctx, game: &Game, node: &mut Node, parent: &Node, op
     match op {
         Op::Push(idx, flavour) => {
             let t = &game.alphabet[*idx];
-            let (legal, _) = resolve(&node.model, t);
+            let (legal, pseudo) = resolve(&node.model, t);
             let board = node.real.last().clone();
             let r: Result<(), String> = match flavour {
                 0 => match Move::from_uci(t, &board) {
@@ -254,9 +260,12 @@ fn apply_in_place(ctx: &mut Ctx, game: &Game, node: &mut Node, parent: &Node, op
                 },
                 2 => node.real.push(Uci(t.as_str())).map_err(|e| e.to_string()),
                 _ => {
-                    let san = match legal {
-                        Some(m) => text::san(node.model.cur(), &node.model.cur().legal(), m),
-                        None => t.clone(),
+                    // legal: the canonical text; pseudo-legal but illegal: what a player would
+                    // write (piece letter + destination); otherwise the coordinate text
+                    let san = match (legal, pseudo) {
+                        (Some(m), _) => text::san(node.model.cur(), &node.model.cur().legal(), m),
+                        (None, Some(m)) => text::san_naive(node.model.cur(), m),
+                        _ => t.clone(),
                     };
                     node.real.push(San(san)).map_err(|e| e.to_string())
                 }
